@@ -10,12 +10,15 @@ from __future__ import annotations
 import itertools
 
 import enc
+import gen
 from props import tmlib as T
 from props.c03 import Batch
 from props.common import load_def
 
 RULE = ("random valid multitape tables (1-3 tapes, deterministic or 1-2 alternatives, 1-3 working + 1-2 final states, 2-4 tape "
-        "symbols without '^' and '_', five direction profiles incl. left-heavy and zigzag) on '' and random words, budget 300 "
+        "symbols without '^' and '_' - in about one table in seven they are control characters and punctuation such as newline, "
+        "tab, backslash - five direction profiles incl. left-heavy and zigzag; every third table is run again with another symbol as its blank; tables whose alternatives differ in the target state "
+        "only, with small negative integers as state names) on '' and random words, budget 300 "
         "dequeued configurations for each run; a case counts for the verdict comparison only when the native run halts within the "
         "budget; distinct = distinct (canonical table, word); non-trivial = native run halts after >= 2 configurations and some "
         "head moved left from a leftmost cell or ran past the right end")
@@ -29,7 +32,8 @@ def budget(ctx):
 
 
 def ext_codes(s, sy):
-    return [0 if c == HEAD else 1 if c == SEP else sy(c) + 2 for c in s]
+    # a symbol that is not in the machine's tape alphabet at all gets a code the model never produces
+    return [0 if c == HEAD else 1 if c == SEP else (sy(c) + 2 if c in sy.idx else 9999) for c in s]
 
 
 def kind_of(out):
@@ -177,6 +181,19 @@ def run(ctx):
             if any(c not in md["tape_symbols"] for c in w):
                 w = "".join(c for c in w if c in md["tape_symbols"])    # '^'/'_' never occur; foreign 'Z' dropped
             check(ctx, batch, md, w, B, "random")
+            if i % 3 == 0:
+                # the same machine with another symbol as the blank, run right afterwards in the same process
+                nb = next(c for c in "~#. :" if c not in md["tape_symbols"])
+                md2 = T.translate_symbols(md, {c: (nb if c == md["blank"] else c) for c in md["tape_symbols"]})
+                check(ctx, batch, md2, w.replace(md["blank"], nb), B, "blank_renamed")
+    # two branches that differ in the state only, state names that are small negative integers (-1, -2, ...)
+    for i in range(ctx.n(40, 400)):
+        names, _ = gen.pick_names(rng, 6, "negint")
+        rng.shuffle(names)
+        md = T.rand_table(rng, k=rng.choice([1, 1, 2]), nondet=True, names=names, twin=True, nasty=False)
+        for w in T.rand_words(rng, md, 3, maxlen=4):
+            w = "".join(c for c in w if c in md["tape_symbols"])
+            check(ctx, batch, md, w, B, "twin_branches")
     batch.flush()
     if ctx.tier == "thorough":
         opts = [None] + [(q2, w, d) for q2 in "qf" for w in "ab." for d in "LRN"]
